@@ -39,7 +39,7 @@ Fixpoint vproj (cB cA : codec) (vB vA : gval) {struct cA} : Prop :=
   | CArray icA _ _ =>
       match cB, vA, vB with
       | CArray icB _ _, VSlice lA, VSlice lB => Forall2 (fun b a => vproj icB icA b a) lB lA
-      | CArray icB _ _, VBytes xA, VBytes xB => xB = xA   (* []byte under an array schema: never decoded into *)
+      | CArray icB _ _, VBytes xA, VBytes xB => True      (* []byte under an array schema: one byte per item, nothing to relate *)
       | _, _, _ => False
       end
   | CMap vcA _ _ =>
@@ -335,7 +335,20 @@ Proof.
   - (* array *)
     destruct (cproj_array_inv _ _ _ _ _ Hc) as (icB & izB & omB & -> & Hci & Hz). clear Hc.
     destruct d as [ |?|?|?|?|?|?|?|?|?|?|items|?|? ?]; try discriminate.
-    destruct destA as [| | | | | | |lA0| | | | | | |]; try discriminate.
+    destruct destA as [| | | | |xA| |lA0| | | | | | |]; try discriminate.
+    { (* a []byte destination on both sides *)
+      destruct destB as [| | | | |xB| |lB0| | | | | | |]; try (cbn [vproj] in Hv; contradiction).
+      cbn [apply_datum] in Ha |- *. rewrite apply_array_bytes_go in Ha. rewrite apply_array_bytes_go.
+      destruct (mapo (fun d' => option_map byte_of (apply_datum cA z d')) items) as [la|] eqn:Em; [|discriminate]. injection Ha as <-.
+      destruct (mapo_sim (fun d' => option_map byte_of (apply_datum cA z d')) (fun d' => option_map byte_of (apply_datum icB izB d'))
+                  (fun _ _ => True) st items la) as [Hex Hag]; [|exact Em|].
+      { intros x a Ex. destruct (apply_datum cA z x) as [va|] eqn:Ea; [|discriminate].
+        destruct (IHcA icB izB z x va Hci Hz Ea) as [Hex1 _]. split; [|intros; exact I].
+        intros Hst. destruct (Hex1 Hst) as [vb Eb]. rewrite Eb. eexists; reflexivity. }
+      split.
+      - intros Hst. destruct (Hex Hst) as [lb El]. rewrite El. eexists; reflexivity.
+      - intros vB Hb. destruct (mapo (fun d' => option_map byte_of (apply_datum icB izB d')) items) as [lb|]; [|discriminate].
+        injection Hb as <-. exact I. }
     destruct destB as [| | | | | | |lB0| | | | | | |]; try (cbn [vproj] in Hv; contradiction).
     cbn [vproj] in Hv.
     cbn [apply_datum] in Ha |- *. rewrite apply_array_go in Ha. rewrite apply_array_go.
